@@ -9,52 +9,81 @@ META = {
         'over ALL 65536 sample values, generated from the ASTs of '
         'int16_samples_to_float32 / float_samples_to_int16 with numpy\'s '
         'promotion rules (float32 array op Python int -> float32, astype(int16) '
-        '= truncation) written into the translator; the length arithmetic of '
+        '= truncation) written into the translator; L-C20-1b/1c: the float is '
+        'fl32(v/32767) for every v (spec written with z3 operators) and '
+        '-1.0/0.0/1.0 map to -32767/0/32767; the length arithmetic of '
         'repeat_samples_to_duration (number of copies, the arguments the call '
         'to crop_samples binds, the slice bounds) is an NRA lemma in the '
         'standard model of floating point generated from the ASTs of both '
-        'functions; a counterexample is replayed on the real function. E1: crop_samples and repeat_samples_to_duration are '
+        'functions, L-C20-3 the same for crop_samples alone with a symbolic '
+        'non-zero begin; a counterexample is replayed on the real function. '
+        'E1: crop_samples and repeat_samples_to_duration are '
         'executed on short arrays of symbolic samples with symbolic offsets / '
         'durations (np-lite), and the solver shows the result is exactly the '
         'existing samples of the requested window / the cyclic repetition of '
         'the requested length; make_stereo runs on channels of every pair of '
-        'lengths 0..M with symbolic sample values.',
+        'lengths 0..M with symbolic sample values (int16 and float channels; '
+        'every ordered pair of different data types is rejected). '
+        'E0 (enumeration on the real numpy/scipy stack, jobs e0_*): '
+        'samples_to_wav_data -> wav_data_to_samples on all 65536 values at the '
+        'five rates with the WAV bytes written / parsed by the standard '
+        'library (mono, 16-bit PCM, header rate), stereo / float32 WAV / error '
+        'classes, crop_wav_data; crop / repeat at the five real rates on 1..10^5 '
+        'samples (int16 and float32, int and float rate, keyword calls, result '
+        'dtype); dtype guards and result dtypes of the converters and of '
+        'make_stereo.',
     'level_note':
         'Trusted: z3 (QF_BVFP, nlsat), the FP translator and its reading of '
         'numpy semantics (validated every run against the real functions on '
         'all 65536 values), np-lite slicing/concatenate (validated per sampled '
         'path against numpy; broadcasting and boolean-mask assignment for '
-        'make_stereo likewise). The WAV container / resampling (scipy, '
-        'librosa) are outside the claim.',
+        'make_stereo likewise). E0 jobs are tests on concrete inputs, not '
+        'proofs. librosa resampling / pydub are outside the claim.',
     'engines': ['symex', 'fpk'],
     'technique':
-        'QF_BVFP lemma over all int16 values generated from the function ASTs '
-        '+ NRA length lemma + bounded symbolic execution of crop/repeat',
+        'QF_BVFP lemmas over all int16 values generated from the function ASTs '
+        '+ NRA length / crop lemmas + bounded symbolic execution of crop/repeat '
+        '/make_stereo + enumeration on the real stack (WAV container, dtypes, '
+        'real rates)',
     'functions': [('audio_io', 'int16_samples_to_float32'),
                   ('audio_io', 'float_samples_to_int16'),
                   ('audio_io', 'crop_samples'),
                   ('audio_io', 'repeat_samples_to_duration'),
-                  ('audio_io', 'make_stereo')],
+                  ('audio_io', 'make_stereo'),
+                  ('audio_io', 'samples_to_wav_data'),
+                  ('audio_io', 'wav_data_to_samples'),
+                  ('audio_io', 'crop_wav_data')],
     'assumptions': [
-        'inputs have the documented dtype (the dtype guards are preconditions)',
+        'lemmas and E1: inputs have the documented dtype (the dtype guards are '
+        'preconditions there; e0_dtypes triggers them)',
         'L-C20-2: 1 <= len(samples) <= 10^5, duration in (0,100] s, sample '
-        'rates {8000,16000,22050,44100,48000}, standard model of binary64',
+        'rates {8000,16000,22050,44100,48000}, standard model of binary64; '
+        'L-C20-3: begin, length in [0,100] s, same rates',
         'E1: arrays of <=4 samples at 2-4 Hz (index domain closed by forking), '
         'doubles as reals',
+        'duration > 0 and a non-empty signal for repeat_samples_to_duration '
+        '(duration == 0 raises ValueError: finding candidate, job left out)',
+        'E0: WAV mono 16-bit (plus equal-channel stereo, float32) at the same '
+        'rate as requested (no resampling); crop_wav_data at whole-sample '
+        'window bounds',
     ],
-    'bounds': {'quick': 'as stated; make_stereo: channel lengths 0..3',
-               'thorough': 'arrays of <=6 samples; make_stereo: lengths 0..6'},
-    'outside': ['samples_to_wav_data / wav_data_to_samples '
-                '(scipy WAV container, librosa resampling)'],
+    'bounds': {'quick': 'as stated; make_stereo: channel lengths 0..3 (int16), '
+                        '0..2 (float32), 0..1 x 12 dtype pairs; E0: signals of '
+                        '1, 7, 1000, 10^5 samples, 8 begins x 8 lengths, 12 '
+                        'durations per rate',
+               'thorough': 'arrays of <=6 samples; make_stereo: lengths 0..6 '
+                           '(0..4 float64)'},
+    'outside': ['librosa resampling (rates different from the WAV header), '
+                'wav_data_to_samples_pydub / load_audio (ffmpeg), '
+                'normalize_wav_data, jitter_wav_data (float64 path of '
+                'float_samples_to_int16: finding candidate, job left out)'],
 }
 
 
-def _pcm_lemma(job):
+def _np_translator():
+  """fpk.Translator with numpy's element-wise semantics for the two PCM
+  helpers (class built lazily: z3 / fpk are imported by the lemma jobs only)."""
   import ast  # pylint: disable=g-import-not-at-top
-  import subprocess  # pylint: disable=g-import-not-at-top
-  import sys  # pylint: disable=g-import-not-at-top
-  import os  # pylint: disable=g-import-not-at-top
-  import json  # pylint: disable=g-import-not-at-top
   import z3  # pylint: disable=g-import-not-at-top
   from engine import fpk  # pylint: disable=g-import-not-at-top
 
@@ -101,6 +130,19 @@ def _pcm_lemma(job):
                                         and isinstance(s.body[0], ast.Raise))]
       return fpk.Translator.block(self, stmts, env, guard)
 
+  return NpTranslator
+
+
+def _pcm_lemma(job):
+  import ast  # pylint: disable=g-import-not-at-top
+  import subprocess  # pylint: disable=g-import-not-at-top
+  import sys  # pylint: disable=g-import-not-at-top
+  import os  # pylint: disable=g-import-not-at-top
+  import json  # pylint: disable=g-import-not-at-top
+  import z3  # pylint: disable=g-import-not-at-top
+  from engine import fpk  # pylint: disable=g-import-not-at-top
+
+  NpTranslator = _np_translator()
   f1, _ = fpk.get_function('audio_io', 'int16_samples_to_float32')
   f2, _ = fpk.get_function('audio_io', 'float_samples_to_int16')
   v = z3.BitVec('v', 64)
@@ -370,15 +412,34 @@ def h_stereo(c):
   M = c.params['M']
   nl = c.concretize(c.int('len_left', 0, M))
   nr = c.concretize(c.int('len_right', 0, M))
-  lv = [c.int('l%d' % i, -32768, 32767) for i in range(nl)]
-  rv = [c.int('r%d' % i, -32768, 32767) for i in range(nr)]
-  left = np.array(lv, dtype=np.int16)
-  right = np.array(rv, dtype=np.float32 if c.params.get('mismatch') else np.int16)
+  # data types of the two channels: int16/int16 (default), int16/float32
+  # (mismatch=True), one float type for both (fdtype=...), or any ordered pair
+  # of different types (pairs=True, forked)
+  names = ('int16', 'int32', 'float32', 'float64')
+  dl, dr = 'int16', ('float32' if c.params.get('mismatch') else 'int16')
+  if c.params.get('fdtype'):
+    dl = dr = c.params['fdtype']
+  if c.params.get('pairs'):
+    dl, dr = c.choice('dtype_pair', [(p, q) for p in names for q in names
+                                     if p != q])
+  if dl.startswith('float') and dl == dr:
+    lv = [c.real('l%d' % i, -1, 1) for i in range(nl)]
+    rv = [c.real('r%d' % i, -1, 1) for i in range(nr)]
+    if c.mode == 'conc':  # the inputs are numbers of that float type
+      lv = [float(getattr(np, dl)(v)) for v in lv]
+      rv = [float(getattr(np, dr)(v)) for v in rv]
+  else:
+    lv = [c.int('l%d' % i, -32768, 32767) for i in range(nl)]
+    rv = [c.int('r%d' % i, -32768, 32767) for i in range(nr)]
+  left = np.array(lv, dtype=getattr(np, dl))
+  right = np.array(rv, dtype=getattr(np, dr))
   if c.mode == 'sym':
     if not hasattr(left, 'data'):  # np-lite returns a bare list for []
       left, right = np.Arr(list(lv)), np.Arr(list(rv))
-    left.dtype = np.int16
-    right.dtype = np.float32 if c.params.get('mismatch') else np.int16
+    left.dtype = getattr(np, dl)
+    right.dtype = getattr(np, dr)
+    if c.params.get('fdtype') or c.params.get('pairs'):
+      left.dtype, right.dtype = np.dtype(left.dtype), np.dtype(right.dtype)
   try:  # (AudioIODataTypeError derives from BaseException)
     out, err = a.make_stereo(left, right), None
   except a.AudioIODataTypeError as e:
@@ -388,7 +449,8 @@ def h_stereo(c):
             'channels of different data types are rejected')
     return
   c.check(err is None, 'no error for two channels of one data type')
-  rows = out.data if hasattr(out, 'data') else out.tolist()
+  # (a numpy array has a .data too -- a memoryview: ask by mode)
+  rows = out.data if c.mode == 'sym' and hasattr(out, 'data') else out.tolist()
   n = max(nl, nr)
   c.check(len(rows) == n and all(len(r) == 2 for r in rows),
           'one (left, right) pair per sample of the longer channel')
@@ -448,10 +510,522 @@ def h_reuse(c):
           'crop / repeat / make_stereo leave their inputs unchanged')
 
 
+# ---------------------------------------------------------------------------
+# L-C20-1b: the scale IS 32767 (mechanism "scale by 32767 both ways")
+
+
+def _scale_lemma(job):
+  """forall v in int16: int16_samples_to_float32(v) is the binary32 quotient
+  v / 32767 (written here with z3's own operators, not with the translator's
+  reading of np.iinfo), so 32767 <-> 1.0, 0 <-> 0.0, -32767 <-> -1.0, and
+  float_samples_to_int16 maps -1.0 / 0.0 / 1.0 to -32767 / 0 / 32767."""
+  import z3  # pylint: disable=g-import-not-at-top
+  from engine import fpk  # pylint: disable=g-import-not-at-top
+  f1, _ = fpk.get_function('audio_io', 'int16_samples_to_float32')
+  f2, _ = fpk.get_function('audio_io', 'float_samples_to_int16')
+  v = z3.BitVec('v', 64)
+  x = z3.FP('x', fpk.F32)
+  tr = _np_translator()(sort=fpk.F32)
+  try:
+    mid = tr.function(f1, {'y': fpk.V(v, 'int')})
+    back = tr.function(f2, {'y': fpk.V(x, 'fp')})
+  except fpk.UnsupportedConstruct as e:
+    return {'status': 'inconclusive', 'obligations': [],
+            'error': 'cannot regenerate L-C20-1b from the source: %s' % e}
+  if mid.kind != 'fp' or back.kind != 'int':
+    return {'status': 'inconclusive', 'obligations': [],
+            'error': 'L-C20-1b: unexpected result kinds %s/%s' % (mid.kind,
+                                                                 back.kind)}
+  spec = z3.fpDiv(fpk.RNE, z3.fpSignedToFP(fpk.RNE, v, fpk.F32),
+                  z3.FPVal(32767.0, fpk.F32))
+  rng = z3.And(v >= -32768, v <= 32767)
+  obligations, violations = [], []
+  status, err = 'ok', None
+  r = fpk.solve([rng, z3.Not(z3.fpEQ(mid.t, spec))], timeout_s=300,
+                want_model={'v': v})
+  obligations.append({
+      'lemma': 'L-C20-1b', 'statement':
+          'forall v in int16: int16_samples_to_float32(v) == fl32(fl32(v) / '
+          '32767) (full scale 32767 <-> 1.0)',
+      'expect': 'unsat', 'result': r['result'], 'seconds': r['seconds'],
+      'backend': r['backend'], 'discharged': r['result'] == 'unsat'})
+  if r['result'] == 'sat':
+    violations.append({'label': 'L-C20-1b the PCM scale is not 32767',
+                       'values': {'v': r['model']['v'], 'dir': 'to_float'},
+                       'source': 'solver'})
+  elif r['result'] != 'unsat':
+    status, err = 'inconclusive', 'L-C20-1b: %s' % r['result']
+  pts = z3.Or(*[z3.And(z3.fpEQ(x, z3.FPVal(p, fpk.F32)),
+                       back.t != z3.BitVecVal(q, 64))
+                for p, q in ((-1.0, -32767), (0.0, 0), (1.0, 32767))])
+  r2 = fpk.solve([z3.Not(z3.fpIsNaN(x)), pts], timeout_s=120,
+                 want_model={'x': x})
+  obligations.append({
+      'lemma': 'L-C20-1c', 'statement':
+          'float_samples_to_int16 maps -1.0, 0.0, 1.0 to -32767, 0, 32767',
+      'expect': 'unsat', 'result': r2['result'], 'seconds': r2['seconds'],
+      'backend': r2['backend'], 'discharged': r2['result'] == 'unsat'})
+  if r2['result'] == 'sat':
+    violations.append({'label': 'L-C20-1b the PCM scale is not 32767',
+                       'values': {'x': r2['model']['x'], 'dir': 'to_int16'},
+                       'source': 'solver'})
+  elif r2['result'] != 'unsat':
+    status, err = 'inconclusive', 'L-C20-1c: %s' % r2['result']
+  t = fpk.solve([rng, z3.fpEQ(mid.t, spec)], timeout_s=20)
+  obligations.append({'lemma': 'L-C20-1b-twin', 'statement':
+                          'range and conclusion jointly satisfiable',
+                      'expect': 'sat', 'result': t['result'],
+                      'discharged': t['result'] == 'sat',
+                      'seconds': t['seconds'], 'backend': t['backend']})
+  if t['result'] != 'sat':
+    status, err = 'inconclusive', 'L-C20-1b twin %s' % t['result']
+  out = {'obligations': obligations, 'status': status, 'solver_queries': 3,
+         'solver_seconds': round(r['seconds'] + r2['seconds'] + t['seconds'],
+                                 3)}
+  if violations:
+    out['status'] = 'violation'
+    out['violations'] = violations
+  if err:
+    out['error'] = err
+  return out
+
+
+def h_scale_witness(c):
+  """Replay of an L-C20-1b/1c counterexample (also run by E0 h_dtypes)."""
+  np = c.np
+  a = c.mod('audio_io')
+  if c.values.get('dir') == 'to_int16':
+    x = float(c.values['x'])
+    z = a.float_samples_to_int16(np.array([x], dtype=np.float32))
+    c.check(int(z[0]) == int(x * 32767),
+            'L-C20-1b the PCM scale is not 32767')
+    return
+  v = int(c.values['v'])
+  f = a.int16_samples_to_float32(np.array([v], dtype=np.int16))
+  c.check(float(f[0]) == float(np.float32(v) / np.float32(32767)),
+          'L-C20-1b the PCM scale is not 32767')
+
+
+# ---------------------------------------------------------------------------
+# L-C20-3: crop_samples alone, NON-ZERO begin, real rates, standard model of
+# binary64
+
+
+def _crop_terms(rate, tag):
+  """Slice bounds of crop_samples for symbolic begin / length (seconds) from
+  its AST; the specification [int(begin*rate), int(begin*rate) +
+  int(length*rate)) is written with the parameter names of the signature."""
+  import ast  # pylint: disable=g-import-not-at-top
+  import z3  # pylint: disable=g-import-not-at-top
+  from engine import fpk  # pylint: disable=g-import-not-at-top
+  crop, _ = fpk.get_function('audio_io', 'crop_samples')
+  cparams = [a.arg for a in crop.args.args]
+  if len(cparams) != 4 or crop.args.defaults:
+    raise fpk.UnsupportedConstruct('crop_samples signature')
+  tr = fpk.StdModel(tag=tag)
+  b = z3.Real('b')
+  l = z3.Real('l')
+  tr.declare_nonneg(b)
+  tr.declare_nonneg(l)
+  env = {cparams[1]: fpk.V(z3.IntVal(rate), 'int'),
+         cparams[2]: fpk.V(b, 'fp'), cparams[3]: fpk.V(l, 'fp')}
+  spec_lo = tr.expr(ast.parse('int(%s * %s)' % (cparams[2], cparams[1]),
+                              mode='eval').body, dict(env))
+  spec_cnt = tr.expr(ast.parse('int(%s * %s)' % (cparams[3], cparams[1]),
+                               mode='eval').body, dict(env))
+  cenv = dict(env)
+  tr.assigns(crop.body, cenv)
+  sl = [n for n in ast.walk(crop) if isinstance(n, ast.Subscript) and
+        isinstance(n.slice, ast.Slice) and ast.unparse(n.value) == cparams[0]]
+  if len(sl) != 1 or sl[0].slice.step is not None or (
+      sl[0].slice.upper is None):
+    raise fpk.UnsupportedConstruct('expected one slice of the samples')
+  lo = tr.expr(sl[0].slice.lower, cenv) if sl[0].slice.lower is not None else (
+      fpk.V(z3.IntVal(0), 'int'))
+  hi = tr.expr(sl[0].slice.upper, cenv)
+  # the value returned must be that slice
+  rets = [n for n in ast.walk(crop) if isinstance(n, ast.Return)]
+  names = [n.targets[0].id for n in ast.walk(crop)
+           if isinstance(n, ast.Assign) and n.value is sl[0] and
+           isinstance(n.targets[0], ast.Name)]
+  if len(rets) != 1 or not (rets[0].value is sl[0] or (
+      isinstance(rets[0].value, ast.Name) and rets[0].value.id in names)):
+    raise fpk.UnsupportedConstruct('crop_samples does not return the slice')
+  for x in (lo, hi, spec_lo, spec_cnt):
+    if x.kind != 'int':
+      raise fpk.UnsupportedConstruct('a slice bound is not an integer')
+  return b, l, lo.t, hi.t, spec_lo.t, spec_cnt.t, tr.side
+
+
+def _crop_lemma(job):
+  import time  # pylint: disable=g-import-not-at-top
+  import z3  # pylint: disable=g-import-not-at-top
+  from engine import fpk  # pylint: disable=g-import-not-at-top
+  obligations, violations = [], []
+  status, err = 'ok', None
+  for rate in (8000, 16000, 22050, 44100, 48000):
+    try:
+      b, l, lo, hi, slo, scnt, side = _crop_terms(rate, 'c%d' % rate)
+    except fpk.UnsupportedConstruct as e:
+      return {'status': 'inconclusive', 'obligations': obligations,
+              'error': 'cannot regenerate L-C20-3 from the source: %s' % e}
+    base = [b >= 0, b <= 100, l >= 0, l <= 100] + list(side)
+    good = z3.And(lo == slo, hi == slo + scnt, slo >= 0, scnt >= 0)
+    s = z3.Solver()
+    s.set('timeout', 120000)
+    s.add(base)
+    s.add(z3.Not(good))
+    t0 = time.time()
+    r = str(s.check())
+    dt = time.time() - t0
+    obligations.append({
+        'lemma': 'L-C20-3[rate=%d]' % rate, 'statement':
+            'forall begin, length in [0,100] s: crop_samples slices '
+            '[int(fl(begin*rate)), int(fl(begin*rate)) + '
+            'int(fl(length*rate))) and returns that slice (terms generated '
+            'from the AST, standard model of binary64)',
+        'expect': 'unsat', 'result': r, 'seconds': round(dt, 3),
+        'backend': 'z3 nlsat', 'discharged': r == 'unsat'})
+    if r == 'sat':
+      m = s.model()
+      bv = m.eval(b, model_completion=True)
+      lv = m.eval(l, model_completion=True)
+      violations.append({
+          'label': 'L-C20-3 crop_samples returns a wrong window',
+          'values': {'rate': rate,
+                     'b': [bv.numerator_as_long(), bv.denominator_as_long()],
+                     'l': [lv.numerator_as_long(), lv.denominator_as_long()]},
+          'source': 'solver'})
+    elif r != 'unsat':
+      status, err = 'inconclusive', 'L-C20-3[rate=%d]: %s' % (rate, r)
+    s2 = z3.Solver()
+    s2.set('timeout', 20000)
+    s2.add(base)
+    s2.add(good)
+    s2.add(slo > 0, scnt > 0)
+    r2 = str(s2.check())
+    obligations.append({'lemma': 'L-C20-3-twin[rate=%d]' % rate,
+                        'statement': 'assumptions and conclusion jointly '
+                                     'satisfiable with a non-zero begin',
+                        'expect': 'sat', 'result': r2,
+                        'discharged': r2 == 'sat', 'seconds': 0,
+                        'backend': 'z3 nlsat'})
+    if r2 != 'sat':
+      status, err = 'inconclusive', 'L-C20-3 twin %s' % r2
+  out = {'obligations': obligations, 'status': status,
+         'solver_queries': len(obligations),
+         'solver_seconds': round(sum(o['seconds'] for o in obligations), 3)}
+  if violations:
+    # a sat answer of the standard model is a candidate only (the deltas are
+    # existential): besides the model point, ordinary windows at that rate are
+    # replayed on the real function; only a concrete failure is reported
+    from fractions import Fraction  # pylint: disable=g-import-not-at-top
+    rate0 = violations[0]['values']['rate']
+    fr = lambda x: list(Fraction(x).as_integer_ratio())
+    probes = [{'label': violations[0]['label'], 'source': 'probe',
+               'values': {'rate': rate0, 'b': fr(pb), 'l': fr(pl)}}
+              for pb, pl in ((1.0 / 3, 1.0 / 3), (2.0 / 3, 2.0 / 3),
+                             (0.00017, 1.0 / 3))]
+    out['status'] = 'violation'
+    out['violations'] = violations[:1] + probes
+  if err:
+    out['error'] = err
+  return out
+
+
+def h_crop_witness(c):
+  """Replay of an L-C20-3 counterexample on the real function."""
+  from fractions import Fraction  # pylint: disable=g-import-not-at-top
+  np = c.np
+  a = c.mod('audio_io')
+  rate = int(c.values['rate'])
+  b = float(Fraction(*c.values['b']))
+  l = float(Fraction(*c.values['l']))
+  lo, cnt = int(b * rate), int(l * rate)
+  n = lo + cnt + 3
+  x = (np.arange(n) % 32749).astype(np.int16)
+  out = a.crop_samples(x, rate, b, l)
+  idx = np.arange(n)
+  want = x[(idx >= lo) & (idx < lo + cnt)]
+  c.check(len(out) == len(want) and bool((out == want).all()),
+          'L-C20-3 crop_samples returns a wrong window')
+
+
+# ---------------------------------------------------------------------------
+# E0: enumeration on the REAL stack (numpy, scipy WAV container) -- what the
+# shims cannot carry: the WAV bytes, result dtypes, dtype guards, real rates
+# and long signals.  These harnesses only run under ConcCtx (func jobs that
+# call the real worker); a failure is replayed like any counterexample.
+
+_RATES = (8000, 16000, 22050, 44100, 48000)
+
+
+def _real_run(job):
+  """Runs HARNESSES[job harness] once on the unmodified stack."""
+  from engine import runner  # pylint: disable=g-import-not-at-top
+  cl = runner.RealClient()
+  try:
+    r = cl.call({'prop': job['prop'], 'harness': job['harness'],
+                 'params': job.get('params') or {}, 'values': {},
+                 'known': job.get('known') or []})
+  finally:
+    cl.close()
+  ob = {'lemma': 'E0 %s %s' % (job['harness'], job.get('params') or ''),
+        'statement': (HARNESSES[job['harness']].__doc__ or '').strip(),
+        'expect': 'pass', 'result': r.get('status'),
+        'checks': r.get('checks'), 'discharged': r.get('status') == 'ok',
+        'seconds': 0, 'backend': 'real stack (numpy, scipy)'}
+  out = {'obligations': [ob], 'status': 'ok'}
+  if r.get('status') == 'fail':
+    out['status'] = 'violation'
+    out['violations'] = [{'label': r.get('label'), 'values': {},
+                          'source': 'real run', 'note': r.get('error')}]
+  elif r.get('status') != 'ok' or not r.get('checks'):
+    out['status'] = 'error'
+    out['error'] = 'real run of %s: %s' % (job['harness'], r)
+  return out
+
+
+def _wav16(frames, rate, channels=1, width=2):
+  """WAV bytes written with the standard library (not scipy)."""
+  import io  # pylint: disable=g-import-not-at-top
+  import wave  # pylint: disable=g-import-not-at-top
+  b = io.BytesIO()
+  w = wave.open(b, 'wb')
+  w.setnchannels(channels)
+  w.setsampwidth(width)
+  w.setframerate(rate)
+  w.writeframes(frames.astype('<i2' if width == 2 else 'u1').tobytes())
+  w.close()
+  return b.getvalue()
+
+
+def _wav_float32(frames, rate):
+  import struct  # pylint: disable=g-import-not-at-top
+  data = frames.astype('<f4').tobytes()
+  return (b'RIFF' + struct.pack('<I', 36 + len(data)) + b'WAVEfmt ' +
+          struct.pack('<IHHIIHH', 16, 3, 1, rate, rate * 4, 4, 32) + b'data' +
+          struct.pack('<I', len(data)) + data)
+
+
+def _wav_parse(np, data):
+  """(channels, bytes per sample, rate, int16 frames) read with the standard
+  library; `wave` accepts integer PCM only."""
+  import io  # pylint: disable=g-import-not-at-top
+  import wave  # pylint: disable=g-import-not-at-top
+  try:
+    w = wave.open(io.BytesIO(data), 'rb')
+    raw = w.readframes(w.getnframes())
+    return (w.getnchannels(), w.getsampwidth(), w.getframerate(),
+            np.frombuffer(raw, dtype='<i2') if w.getsampwidth() == 2 else None)
+  except (wave.Error, EOFError):
+    return (None, None, None, None)
+
+
+def h_wav(c):
+  """samples_to_wav_data followed by wav_data_to_samples at the same rate
+  reproduces a mono 16-bit signal exactly: all 65536 sample values, the five
+  rates, WAV bytes written / parsed independently with the standard library
+  (header: mono, 16-bit PCM, the given rate); stereo with equal channels,
+  32-bit float WAV, the documented error classes, crop_wav_data."""
+  np = c.np
+  a = c.mod('audio_io')
+  y = np.arange(-32768, 32768, dtype=np.int16)
+  same = lambda p, q: p.shape == q.shape and bool((p == q).all())
+  if c.params.get('jitter'):
+    # not in the jobs list (outside the anchors of C20): jitter_wav_data
+    rate = 16000
+    sig = np.array([3, 100, -5, 12345], dtype=np.int16)
+    out = _wav_parse(np, a.jitter_wav_data(_wav16(sig, rate), rate, 0.001))
+    c.check(out[3] is not None and same(
+        out[3], np.concatenate([np.zeros(16, dtype=np.int16), sig])),
+            'jitter_wav_data prepends silence and keeps the samples')
+    return
+  g = None
+  for rate in _RATES:
+    wav = _wav16(y, rate)
+    g = a.wav_data_to_samples(wav, rate)
+    c.check(g.dtype == np.float32 and g.shape == y.shape and float(np.abs(
+        g.astype(np.float64) * 32767.0 - y).max()) <= 2.0**-9,
+            'wav_data_to_samples returns the mono signal as float32, '
+            'sample/32767')
+    wav2 = a.samples_to_wav_data(g, rate)
+    g2 = a.wav_data_to_samples(wav2, rate)
+    c.check(g2.dtype == np.float32 and same(g2, g),
+            'samples_to_wav_data -> wav_data_to_samples at the same rate '
+            'reproduces the signal exactly')
+    ch, width, hrate, frames = _wav_parse(np, wav2)
+    c.check((ch, width, hrate) == (1, 2, rate) and frames is not None and
+            same(frames, y),
+            'samples_to_wav_data writes mono 16-bit PCM at the given rate '
+            'holding the samples')
+    st = a.wav_data_to_samples(
+        _wav16(np.stack([y, y], axis=1), rate, channels=2), rate)
+    c.check(st.dtype == np.float32 and same(st, g),
+            'a stereo WAV with equal channels is read as that mono signal')
+    fl = a.wav_data_to_samples(_wav_float32(g, rate), rate)
+    c.check(fl.dtype == np.float32 and same(fl, g),
+            'a 32-bit float WAV is returned unchanged')
+  err = None
+  try:
+    a.wav_data_to_samples(b'RIFFnot a wav file at all', 16000)
+  except a.AudioIOError as e:
+    err = e
+  c.check(isinstance(err, a.AudioIOReadError),
+          'unreadable WAV data raises AudioIOReadError')
+  err = None
+  try:
+    a.wav_data_to_samples(_wav16(np.arange(256), 8000, width=1), 8000)
+  except a.AudioIOError as e:
+    err = e
+  c.check(isinstance(err, a.AudioIOError) and not isinstance(
+      err, a.AudioIOReadError),
+          'a WAV that is neither 16-bit nor 32-bit float raises AudioIOError')
+  # crop_wav_data (second copy of the crop arithmetic): windows whose bounds
+  # are whole samples, so that no reading of the rounding matters
+  for rate, b, l in ((16000, 0.5, 0.25), (8000, 0.0, 1.0), (48000, 1.0, 2.0),
+                     (44100, 1.0, 0.0)):
+    lo, cnt = int(b * rate), int(l * rate)
+    ch, width, hrate, frames = _wav_parse(
+        np, a.crop_wav_data(_wav16(y, rate), rate, b, l))
+    idx = np.arange(len(y))
+    c.check((ch, width, hrate) == (1, 2, rate) and same(
+        frames, y[(idx >= lo) & (idx < lo + cnt)]),
+            'crop_wav_data returns the WAV of the requested window')
+
+
+def h_rates(c):
+  """crop_samples / repeat_samples_to_duration on the real stack at the five
+  real rates (int and float rate objects), signals of 1 .. 10^5 samples (int16
+  and float32), non-zero begins, windows past the end, durations shorter /
+  longer than / exact multiples of the signal; positional and keyword calls;
+  the result has the dtype of the input."""
+  np = c.np
+  a = c.mod('audio_io')
+  if c.params.get('zero_duration'):
+    # duration == 0 (F-C20-a, fixed)
+    x = np.arange(5, dtype=np.int16)
+    out = a.repeat_samples_to_duration(x, 44100, 0.0)
+    c.check(len(out) == 0, 'exactly int(duration*rate) samples')
+    return
+  secs = (0.0, 0.001, 0.1, 0.29, 1.0 / 3, 0.7, 1.0, 2.5)
+  k = 0
+  for L in (1, 7, 1000, 100000):
+    base = ((np.arange(L) * 7919) % 65536 - 32768).astype(np.int16)
+    for rate in _RATES:
+      idx = np.arange(L)
+      for b in secs:
+        for l in secs:
+          k += 1
+          x = base if k % 2 else (base.astype(np.float32) / np.float32(32767))
+          r = float(rate) if k % 5 == 0 else rate
+          if k % 3:
+            out = a.crop_samples(x, r, b, l)
+          else:
+            out = a.crop_samples(samples=x, sample_rate=r,
+                                 crop_beginning_seconds=b,
+                                 total_length_seconds=l)
+          lo, cnt = int(b * rate), int(l * rate)
+          want = x[(idx >= lo) & (idx < lo + cnt)]
+          c.check(out.shape == want.shape and bool((out == want).all()),
+                  'crop returns exactly the existing samples of the requested '
+                  'window')
+          c.check(out.dtype == x.dtype, 'crop keeps the sample data type')
+      durs = [0.001, 0.1, 0.29, 1.0 / 3, 1.0, 3.7, L / rate, 2.0 * L / rate,
+              2.5 * L / rate, (L + 1.0) / rate, 1.0 / rate, 0.5 / rate]
+      for d in durs:
+        cnt = int(d * rate)
+        if d <= 0 or cnt > 400000:
+          continue
+        k += 1
+        x = base if k % 2 else (base.astype(np.float32) / np.float32(32767))
+        r = float(rate) if k % 5 == 0 else rate
+        if k % 3:
+          out = a.repeat_samples_to_duration(x, r, d)
+        else:
+          out = a.repeat_samples_to_duration(samples=x, sample_rate=r,
+                                             duration=d)
+        c.check(len(out) == cnt, 'exactly int(duration*rate) samples')
+        c.check(out.shape == (cnt,) and bool(
+            (out == x[np.arange(cnt) % L]).all()),
+                'the input repeated cyclically')
+        c.check(out.dtype == x.dtype, 'repeat keeps the sample data type')
+
+
+def h_dtypes(c):
+  """Data types on the real stack: the converters return float32 / int16 and
+  reject any other input type (ValueError), full scale is 32767 <-> 1.0 (also
+  for float64 samples), make_stereo returns an (n, 2) array of the channels'
+  data type for int and float channels and rejects every pair of different
+  types."""
+  np = c.np
+  a = c.mod('audio_io')
+  y = np.array([-32768, -32767, -1, 0, 1, 12345, 32767], dtype=np.int16)
+  f = a.int16_samples_to_float32(y)
+  c.check(f.dtype == np.float32 and f.shape == y.shape,
+          'int16 -> float returns float32')
+  c.check([float(v) for v in f[[1, 3, 6]]] == [-1.0, 0.0, 1.0],
+          'full scale is 32767 <-> 1.0')
+  for dt in (np.float32, np.float64):
+    z = a.float_samples_to_int16(np.array([-1.0, 0.0, 1.0], dtype=dt))
+    c.check(z.dtype == np.int16, 'float -> int16 returns int16')
+    c.check([int(v) for v in z] == [-32767, 0, 32767],
+            'full scale is 32767 <-> 1.0')
+  z = a.float_samples_to_int16(f)
+  c.check(z.dtype == np.int16 and bool((z == y).all()),
+          'float -> int16 returns int16')
+  for bad in (np.int8, np.uint8, np.uint16, np.int32, np.int64, np.float32,
+              np.float64):
+    _, e = c.raises(a.int16_samples_to_float32, np.array([1, 0], dtype=bad))
+    c.check(isinstance(e, ValueError),
+            'int16 -> float rejects samples that are not int16')
+  for bad in (np.int16, np.int32, np.uint8, np.int64, np.bool_):
+    _, e = c.raises(a.float_samples_to_int16, np.array([1, 0], dtype=bad))
+    c.check(isinstance(e, ValueError),
+            'float -> int16 rejects samples that are not floating-point')
+  types = (np.int16, np.int32, np.uint8, np.float32, np.float64)
+  for dt in types:
+    for nl, nr in ((0, 0), (0, 3), (3, 0), (2, 5), (5, 2), (4, 4), (1, 1)):
+      left = (np.arange(nl) + 1).astype(dt)
+      right = (np.arange(nr) + 11).astype(dt)
+      keep = (left.copy(), right.copy())
+      try:  # (AudioIODataTypeError derives from BaseException)
+        out = a.make_stereo(left, right)
+      except a.AudioIODataTypeError:
+        out = None
+      c.check(out is not None, 'no error for two channels of one data type')
+      n = max(nl, nr)
+      c.check(out.shape == (n, 2),
+              'one (left, right) pair per sample of the longer channel')
+      c.check(out.dtype == np.dtype(dt),
+              'the stereo signal has the data type of the channels')
+      want = [[i + 1 if i < nl else 0, i + 11 if i < nr else 0]
+              for i in range(n)]
+      c.check(out.tolist() == want,
+              'both channels in order, the shorter one padded with zeros')
+      c.check(bool((left == keep[0]).all()) and bool(
+          (right == keep[1]).all()),
+              'crop / repeat / make_stereo leave their inputs unchanged')
+    for dt2 in types:
+      if dt2 is dt:
+        continue
+      err = None
+      try:
+        a.make_stereo(np.zeros(2, dtype=dt), np.zeros(2, dtype=dt2))
+      except a.AudioIODataTypeError as e:
+        err = e
+      c.check(isinstance(err, a.AudioIODataTypeError),
+              'channels of different data types are rejected')
+
+
 HARNESSES = {'h_crop': h_crop, 'h_reuse': h_reuse, 'h_repeat': h_repeat, 'lemma_pcm': h_pcm_witness,
              'lemma_length': h_length_witness,
-             'h_stereo': h_stereo}
-FUNCS = {'lemma_pcm': _pcm_lemma, 'lemma_length': _length_lemma}
+             'h_stereo': h_stereo,
+             'lemma_scale': h_scale_witness, 'lemma_crop': h_crop_witness,
+             'e0_wav': h_wav, 'e0_rates': h_rates, 'e0_dtypes': h_dtypes}
+FUNCS = {'lemma_pcm': _pcm_lemma, 'lemma_length': _length_lemma,
+         'lemma_scale': _scale_lemma, 'lemma_crop': _crop_lemma,
+         'e0_wav': _real_run, 'e0_rates': _real_run, 'e0_dtypes': _real_run}
 
 
 def jobs(tier):
@@ -464,12 +1038,29 @@ def jobs(tier):
   deep = tier == 'thorough'
   add('lemma_pcm', jobkind='func', budget=900)
   add('lemma_length', jobkind='func', budget=600)
+  add('lemma_scale', jobkind='func', budget=600)
+  add('lemma_crop', jobkind='func', budget=600)
+  add('e0_wav', jobkind='func', budget=600)
+  add('e0_rates', jobkind='func', budget=600)
+  add('e0_dtypes', jobkind='func', budget=300)
+  # a zero target duration gives zero samples (F-C20-a, fixed: ValueError
+  # 'need at least one array to concatenate')
+  add('e0_rates', jobkind='func', zero_duration=True)
+  # NOT CLAIMED (function outside the anchors of C20): jitter_wav_data(<mono
+  # 16-bit WAV of [3, 100, -5, 12345] at 16000 Hz>, 16000, 0.001) returns
+  # 16 zeros + [2, 99, -4, 12345]: np.zeros() is float64, so
+  # float_samples_to_int16 gets float64 and truncates fl32(v/32767)*32767 in
+  # binary64 (33279 of the 65536 values come back changed by one):
+  # add('e0_wav', jobkind='func', jitter=True)
   add('h_crop', n=3, rate=2)
   add('h_crop', n=4, rate=4)
   add('h_repeat', n=2, rate=2, max_s=3)
   add('h_repeat', n=3, rate=4, max_s=2)
+  add('h_repeat', n=1, rate=4, max_s=2)
   add('h_stereo', M=3)
   add('h_stereo', M=2, mismatch=True)
+  add('h_stereo', M=2, fdtype='float32')
+  add('h_stereo', M=1, mismatch=True, pairs=True)
   add('h_reuse', n=2)
   add('h_reuse', n=3, rate=4)
   if deep:
@@ -477,4 +1068,5 @@ def jobs(tier):
     add('h_repeat', n=4, rate=4, max_s=4, budget=900)
     add('h_repeat', n=1, rate=8, max_s=2, budget=900)
     add('h_stereo', M=6, budget=900)
+    add('h_stereo', M=4, fdtype='float64', budget=900)
   return J
